@@ -880,6 +880,9 @@ func validate(pd *propDef, results []InstResult, n int, seed int64) (int, []stri
 				continue
 			}
 			assumeKO := r.Dropped > 0
+			// (which assertions fail is compared, not how often: the native harness and the executor may stop repeating an
+			// assertion inside a loop at different points)
+			fails, nr.failures = uniqSorted(fails), uniqSorted(nr.failures)
 			sym := fmt.Sprintf("fail=%v panic=%v assumeKO=%v obs=%s", fails, panicked, assumeKO, strings.Join(r.Observe, " "))
 			natS := fmt.Sprintf("fail=%v panic=%v assumeKO=%v obs=%s", nr.failures, nr.panicked, nr.assumeKO, nr.observed)
 			if len(fails) == 0 {
@@ -1060,4 +1063,17 @@ func c18Summary(results []InstResult) map[string]interface{} {
 
 func isEventObl(id string) bool {
 	return id == "shared-operand-not-written" || id == "global-state-written-only-under-mutex" || id == "pool-object-not-put-twice"
+}
+
+func uniqSorted(a []string) []string {
+	m := map[string]bool{}
+	var out []string
+	for _, x := range a {
+		if !m[x] {
+			m[x] = true
+			out = append(out, x)
+		}
+	}
+	sort.Strings(out)
+	return out
 }
